@@ -295,7 +295,7 @@ theorem wr_stream (lines : List Bytes) (b e batch fuel : Nat) (sched : List WOut
     (hs : GoodSched sched) :
     wr lines b e batch fuel sched =
       some (0, ((lines.drop b).take (e - b)).flatten, some ((lines.drop b).take (e - b)).flatten.length) := by
-  unfold wr
+  unfold wr wrFinal
   rw [if_neg (by omega)]
   have hl' : ∀ l ∈ (lines.drop b).take (e - b), l.length ≤ fuel :=
     fun l h => hl l (List.mem_of_mem_drop (List.mem_of_mem_take h))
